@@ -12,7 +12,7 @@ def main():
         q.put((name, pid or name[:3]))
     lock = threading.Lock()
     def worker(k):
-        env = dict(os.environ, SEEDCHECK="/root/wt/seedcheck%d" % k)
+        env = dict(os.environ, SEEDCHECK="/root/wt/seedcheck%d" % (k + int(os.environ.get("SLOT_BASE", "0"))))
         while True:
             try: name, pid = q.get_nowait()
             except queue.Empty: return
